@@ -311,4 +311,317 @@ theorem execS_noTrap (p : List SStmt) (h : ∀ s ∈ p, noTrapStmt s = true) (ρ
       simp only [execS, hv]
       exact ih (fun s hs => h s (by simp [hs])) _
 
+theorem lookup_mem {α β : Type} [BEq α] [LawfulBEq α] (l : List (α × β)) (k : α) (v : β)
+    (h : l.lookup k = some v) : (k, v) ∈ l := by
+  induction l with
+  | nil => simp [List.lookup] at h
+  | cons p r ih =>
+    obtain ⟨k', v'⟩ := p
+    simp only [List.lookup] at h
+    split at h
+    · rename_i he
+      have : k = k' := by simpa using he
+      injection h with h; subst h; subst this; simp
+    · exact List.mem_cons_of_mem _ (ih h)
+
+theorem lookup_none_of_not_key {α β : Type} [BEq α] [LawfulBEq α] (l : List (α × β)) (k : α)
+    (h : ∀ v, (k, v) ∉ l) : l.lookup k = none := by
+  cases hl : l.lookup k with
+  | none => rfl
+  | some v => exact absurd (lookup_mem l k v hl) (h v)
+
+structure Inv (seen : List Nat) (cx : Cx) (ρ1 ρ2 : Nat → Int) : Prop where
+  rel : ∀ v, v ∈ seen → ρ1 v = ρ2 (rn cx.ren v)
+  renSeen : ∀ x y, (x, y) ∈ cx.ren → x ∈ seen ∧ y ∈ seen
+  availSeen : ∀ (k : Key) (n : Nat), (k, n) ∈ cx.avail →
+    (∀ v, v ∈ k.2.1.vars → v ∈ seen) ∧ (∀ v, v ∈ k.2.2.vars → v ∈ seen) ∧ n ∈ seen
+  availVal : ∀ (k : Key) (n : Nat), (k, n) ∈ cx.avail →
+    evalTarget k.1 (k.2.1.eval ρ2) (k.2.2.eval ρ2) = some (ρ2 n)
+
+theorem rn_seen {seen cx ρ1 ρ2} (h : Inv seen cx ρ1 ρ2) (v : Nat) (hv : v ∈ seen) : rn cx.ren v ∈ seen := by
+  unfold rn
+  cases hl : cx.ren.lookup v with
+  | none => simpa using hv
+  | some y => simpa using (h.renSeen v y (lookup_mem _ _ _ hl)).2
+
+theorem rn_fresh {seen cx ρ1 ρ2} (h : Inv seen cx ρ1 ρ2) (x : Nat) (hx : x ∉ seen) : cx.ren.lookup x = none :=
+  lookup_none_of_not_key _ _ (fun y hy => hx (h.renSeen x y hy).1)
+
+theorem rnO_eval {seen cx ρ1 ρ2} (h : Inv seen cx ρ1 ρ2) (a : Operand) (ha : ∀ v, v ∈ a.vars → v ∈ seen) :
+    (rnO cx.ren a).eval ρ2 = a.eval ρ1 := by
+  cases a with
+  | lit n => rfl
+  | var x => simp only [rnO, Operand.eval]; exact (h.rel x (ha x (by simp [Operand.vars]))).symm
+
+theorem rnO_vars_seen {seen cx ρ1 ρ2} (h : Inv seen cx ρ1 ρ2) (a : Operand) (ha : ∀ v, v ∈ a.vars → v ∈ seen) :
+    ∀ v, v ∈ (rnO cx.ren a).vars → v ∈ seen := by
+  cases a with
+  | lit n => intro v hv; simp [rnO, Operand.vars] at hv
+  | var x =>
+    intro v hv
+    simp only [rnO, Operand.vars, List.mem_singleton] at hv
+    subst hv
+    exact rn_seen h x (ha x (by simp [Operand.vars]))
+
+theorem eval_update_of_not_mem (a : Operand) (ρ : Nat → Int) (x : Nat) (v : Int) (h : x ∉ a.vars) :
+    a.eval (update ρ x v) = a.eval ρ := by
+  cases a with
+  | lit n => rfl
+  | var y =>
+    simp only [Operand.eval, update]
+    have : y ≠ x := fun e => h (by simp [Operand.vars, e])
+    simp [this]
+
+def seenAfter : List Simple → List Nat → List Nat
+  | [], seen => seen
+  | .bin x _ _ _ :: r, seen => seenAfter r (x :: seen)
+  | _ :: r, seen => seenAfter r seen
+
+def ResRel (seen : List Nat) (cx : Cx) : Res → Res → Prop
+  | .trap, .trap => True
+  | .brk v, .brk w => v = w
+  | .next ρ1, .next ρ2 => Inv seen cx ρ1 ρ2
+  | _, _ => False
+
+theorem vars_all {a : Operand} {seen : List Nat} (h : a.vars.all seen.contains = true) :
+    ∀ v, v ∈ a.vars → v ∈ seen := by
+  intro v hv
+  have := List.all_eq_true.mp h v hv
+  simpa using this
+
+
+/-- kept `Binary`: both sides define `x` with the same value -/
+theorem inv_bin_kept {seen cx ρ1 ρ2} (h : Inv seen cx ρ1 ρ2) (x : Nat) (op : Op) (a b : Operand)
+    (hx : x ∉ seen) (ha : ∀ v, v ∈ a.vars → v ∈ seen) (hb : ∀ v, v ∈ b.vars → v ∈ seen) (v : Int)
+    (hv : evalTarget op ((rnO cx.ren a).eval ρ2) ((rnO cx.ren b).eval ρ2) = some v) :
+    Inv (x :: seen) { cx with avail := ((op, rnO cx.ren a, rnO cx.ren b), x) :: cx.avail }
+      (update ρ1 x v) (update ρ2 x v) := by
+  have hfresh := rn_fresh h x hx
+  constructor
+  · intro w hw
+    simp only [List.mem_cons] at hw
+    rcases hw with rfl | hw
+    · simp [rn, hfresh, update]
+    · have hwx : w ≠ x := fun e => hx (e ▸ hw)
+      have hr : rn cx.ren w ≠ x := fun e => hx (e ▸ rn_seen h w hw)
+      simp only [update, hwx, hr, if_false]
+      exact h.rel w hw
+  · intro y z hyz
+    have := h.renSeen y z hyz
+    exact ⟨List.mem_cons_of_mem _ this.1, List.mem_cons_of_mem _ this.2⟩
+  · intro k n hk
+    simp only [List.mem_cons] at hk
+    rcases hk with hk | hk
+    · injection hk with hk1 hk2; subst hk1; subst hk2
+      refine ⟨fun w hw => List.mem_cons_of_mem _ (rnO_vars_seen h a ha w hw),
+              fun w hw => List.mem_cons_of_mem _ (rnO_vars_seen h b hb w hw), by simp⟩
+    · have := h.availSeen k n hk
+      exact ⟨fun w hw => List.mem_cons_of_mem _ (this.1 w hw), fun w hw => List.mem_cons_of_mem _ (this.2.1 w hw),
+             List.mem_cons_of_mem _ this.2.2⟩
+  · intro k n hk
+    simp only [List.mem_cons] at hk
+    rcases hk with hk | hk
+    · have h1 : x ∉ (rnO cx.ren a).vars := fun e => hx (rnO_vars_seen h a ha x e)
+      have h2 : x ∉ (rnO cx.ren b).vars := fun e => hx (rnO_vars_seen h b hb x e)
+      injection hk with hk1 hk2
+      rw [hk1, hk2]
+      simp only [eval_update_of_not_mem _ _ _ _ h1, eval_update_of_not_mem _ _ _ _ h2, hv]
+      simp [update]
+    · have hs := h.availSeen k n hk
+      have h1 : x ∉ k.2.1.vars := fun e => hx (hs.1 x e)
+      have h2 : x ∉ k.2.2.vars := fun e => hx (hs.2.1 x e)
+      have h3 : n ≠ x := fun e => hx (e ▸ hs.2.2)
+      simp only [eval_update_of_not_mem _ _ _ _ h1, eval_update_of_not_mem _ _ _ _ h2, update, h3, if_false]
+      exact h.availVal k n hk
+
+/-- deleted `Binary`: the original defines `x`, the optimised block records `x ↦ n` -/
+theorem inv_bin_deleted {seen cx ρ1 ρ2} (h : Inv seen cx ρ1 ρ2) (x n : Nat) (hx : x ∉ seen) (hn : n ∈ seen) :
+    Inv (x :: seen) { cx with ren := (x, (cx.ren.lookup x).getD n) :: cx.ren } (update ρ1 x (ρ2 n)) ρ2 := by
+  have hfresh := rn_fresh h x hx
+  rw [hfresh]
+  simp only [Option.getD]
+  constructor
+  · intro w hw
+    simp only [List.mem_cons] at hw
+    rcases hw with rfl | hw
+    · simp [rn, update, List.lookup]
+    · have hwx : w ≠ x := fun e => hx (e ▸ hw)
+      have : rn ((x, n) :: cx.ren) w = rn cx.ren w := by
+        have hb : (w == x) = false := by simpa using hwx
+        simp [rn, List.lookup, hb]
+      simp only [update, hwx, if_false, this]
+      exact h.rel w hw
+  · intro y z hyz
+    simp only [List.mem_cons] at hyz
+    rcases hyz with hyz | hyz
+    · injection hyz with e1 e2; subst e1; subst e2
+      exact ⟨by simp, List.mem_cons_of_mem _ hn⟩
+    · have := h.renSeen y z hyz
+      exact ⟨List.mem_cons_of_mem _ this.1, List.mem_cons_of_mem _ this.2⟩
+  · intro k m hk
+    have := h.availSeen k m hk
+    exact ⟨fun w hw => List.mem_cons_of_mem _ (this.1 w hw), fun w hw => List.mem_cons_of_mem _ (this.2.1 w hw),
+           List.mem_cons_of_mem _ this.2.2⟩
+  · exact h.availVal
+
+/-- FULL STRENGTH: local value numbering of a block of Binary / call / Break statements. For every
+SSA block, every renaming/availability context and every pair of environments related by it: the
+optimised block prints the same values and ends the same way (trap / break with the same value /
+falls through into related environments). -/
+theorem lvnSimple_preserves (p : List Simple) (seen : List Nat) (cx : Cx) (ρ1 ρ2 : Nat → Int)
+    (hwf : wfSimple p seen = true) (h : Inv seen cx ρ1 ρ2) :
+    (execSimple p ρ1).1 = (execSimple (lvnSimple p cx).1 ρ2).1 ∧
+    ResRel (seenAfter p seen) (lvnSimple p cx).2 (execSimple p ρ1).2 (execSimple (lvnSimple p cx).1 ρ2).2 := by
+  induction p generalizing seen cx ρ1 ρ2 with
+  | nil => exact ⟨rfl, h⟩
+  | cons st r ih =>
+    cases st with
+    | print a =>
+      simp only [wfSimple, Bool.and_eq_true] at hwf
+      have ha := vars_all hwf.1
+      have := ih seen cx ρ1 ρ2 hwf.2 h
+      simp only [lvnSimple, lvn1, execSimple, seenAfter, rnO_eval h a ha]
+      exact ⟨by rw [this.1], this.2⟩
+    | brk a =>
+      simp only [wfSimple, Bool.and_eq_true] at hwf
+      have ha := vars_all hwf.1
+      simp only [lvnSimple, lvn1, execSimple, seenAfter, rnO_eval h a ha]
+      exact ⟨trivial, by simp [ResRel]⟩
+    | bin x op a b =>
+      simp only [wfSimple, Bool.and_eq_true, Bool.not_eq_true'] at hwf
+      obtain ⟨⟨⟨hx, ha⟩, hb⟩, hr⟩ := hwf
+      have hx : x ∉ seen := by simpa using hx
+      have ha := vars_all ha
+      have hb := vars_all hb
+      have ea := rnO_eval h a ha
+      have eb := rnO_eval h b hb
+      simp only [lvnSimple, lvn1, seenAfter]
+      cases hl : cx.avail.lookup (op, rnO cx.ren a, rnO cx.ren b) with
+      | some n =>
+        simp only
+        have hmem := lookup_mem _ _ _ hl
+        have hval := h.availVal _ n hmem
+        simp only at hval
+        rw [ea, eb] at hval
+        simp only [execSimple, hval]
+        exact ih (x :: seen) _ _ _ hr (inv_bin_deleted h x n hx (h.availSeen _ n hmem).2.2)
+      | none =>
+        simp only [execSimple, ea, eb]
+        cases hv : evalTarget op (a.eval ρ1) (b.eval ρ1) with
+        | none => exact ⟨rfl, trivial⟩
+        | some v =>
+          simp only
+          exact ih (x :: seen) _ _ _ hr (inv_bin_kept h x op a b hx ha hb v (by rw [ea, eb]; exact hv))
+
+theorem inv_empty (seen : List Nat) (ρ : Nat → Int) : Inv seen { ren := [], avail := [] } ρ ρ := by
+  constructor
+  · intro v _; simp [rn, List.lookup]
+  · intro x y h; simp at h
+  · intro k n h; simp at h
+  · intro k n h; simp at h
+
+theorem execSimple_frame (p : List Simple) (ρ ρ' : Nat → Int)
+    (h : (execSimple p ρ).2 = .next ρ') : ∀ v, v ∉ defsSimple p → ρ' v = ρ v := by
+  induction p generalizing ρ with
+  | nil => intro v _; simp only [execSimple] at h; injection h with h; rw [h]
+  | cons st r ih =>
+    cases st with
+    | print a => intro v hv; simp only [execSimple] at h; exact ih ρ h v (by simpa [defsSimple] using hv)
+    | brk a => simp [execSimple] at h
+    | bin x op a b =>
+      intro v hv
+      simp only [defsSimple, List.mem_cons, not_or] at hv
+      simp only [execSimple] at h
+      cases hv' : evalTarget op (a.eval ρ) (b.eval ρ) with
+      | none => rw [hv'] at h; simp at h
+      | some w =>
+        rw [hv'] at h
+        have := ih (update ρ x w) h v hv.2
+        rw [this]; simp [update, hv.1]
+
+theorem defs_lvnSimple (p : List Simple) (cx : Cx) : ∀ v, v ∈ defsSimple (lvnSimple p cx).1 → v ∈ defsSimple p := by
+  induction p generalizing cx with
+  | nil => intro v h; simp [lvnSimple, defsSimple] at h
+  | cons st r ih =>
+    intro v h
+    cases st with
+    | print a => simp only [lvnSimple, lvn1, defsSimple] at h ⊢; exact ih _ v h
+    | brk a => simp only [lvnSimple, lvn1, defsSimple] at h ⊢; exact ih _ v h
+    | bin x op a b =>
+      simp only [lvnSimple, lvn1] at h
+      cases hl : cx.avail.lookup (op, rnO cx.ren a, rnO cx.ren b) with
+      | some n =>
+        rw [hl] at h
+        simp only [defsSimple] at h ⊢; exact List.mem_cons_of_mem _ (ih _ v h)
+      | none =>
+        rw [hl] at h
+        simp only [defsSimple, List.mem_cons] at h ⊢
+        rcases h with h | h
+        · exact Or.inl h
+        · exact Or.inr (ih _ v h)
+
+theorem defs_not_seen (p : List Simple) (seen : List Nat) (h : wfSimple p seen = true) :
+    ∀ v, v ∈ defsSimple p → v ∉ seen := by
+  induction p generalizing seen with
+  | nil => intro v hv; simp [defsSimple] at hv
+  | cons st r ih =>
+    intro v hv
+    cases st with
+    | print a => simp only [wfSimple, Bool.and_eq_true] at h; exact ih seen h.2 v (by simpa [defsSimple] using hv)
+    | brk a => simp only [wfSimple, Bool.and_eq_true] at h; exact ih seen h.2 v (by simpa [defsSimple] using hv)
+    | bin x op a b =>
+      simp only [wfSimple, Bool.and_eq_true, Bool.not_eq_true'] at h
+      simp only [defsSimple, List.mem_cons] at hv
+      rcases hv with rfl | hv
+      · simpa using h.1.1.1
+      · intro hs; exact ih (x :: seen) h.2 v hv (List.mem_cons_of_mem _ hs)
+
+/-- leaving a nested block: the outer contexts are still valid for the environments the block
+falls through with -/
+theorem inv_frame {seen cx ρ1 ρ2 ρ1' ρ2'} (h : Inv seen cx ρ1 ρ2)
+    (f1 : ∀ v, v ∈ seen → ρ1' v = ρ1 v) (f2 : ∀ v, v ∈ seen → ρ2' v = ρ2 v) : Inv seen cx ρ1' ρ2' := by
+  constructor
+  · intro v hv; rw [f1 v hv, f2 _ (rn_seen h v hv)]; exact h.rel v hv
+  · exact h.renSeen
+  · exact h.availSeen
+  · intro k n hk
+    have hs := h.availSeen k n hk
+    have e1 : k.2.1.eval ρ2' = k.2.1.eval ρ2 := eval_agree _ _ _ (fun x hx => f2 x (hs.1 x hx))
+    have e2 : k.2.2.eval ρ2' = k.2.2.eval ρ2 := eval_agree _ _ _ (fun x hx => f2 x (hs.2.1 x hx))
+    rw [e1, e2, f2 n hs.2.2]; exact h.availVal k n hk
+
+def wfL : List LStmt → List Nat → Bool
+  | [], _ => true
+  | .s st :: r, seen => wfSimple [st] seen && wfL r (seenAfter [st] seen)
+  | .sif c _ body :: r, seen => c.vars.all seen.contains && wfSimple body seen && wfL r seen
+
+theorem keysOf_noDiv (p : List Simple) : ∀ k, k ∈ keysOf p → k.1 ≠ .div ∧ k.1 ≠ .mod := by
+  induction p with
+  | nil => intro k h; simp [keysOf] at h
+  | cons st r ih =>
+    intro k h
+    cases st with
+    | print a => exact ih k (by simpa [keysOf] using h)
+    | brk a => exact ih k (by simpa [keysOf] using h)
+    | bin x op a b =>
+      simp only [keysOf] at h
+      split at h
+      · rename_i hc
+        simp only [List.mem_cons] at h
+        rcases h with rfl | h
+        · exact hc
+        · exact ih k h
+      · exact ih k h
+
+theorem cseHoisted_total (ks : List Key) (hk : ∀ k, k ∈ ks → k.1 ≠ .div ∧ k.1 ≠ .mod) (fresh : Nat) (ρ : Nat → Int) :
+    (execSimple (cseHoisted ks fresh) ρ).1 = [] ∧ ∃ ρ', (execSimple (cseHoisted ks fresh) ρ).2 = .next ρ' := by
+  induction ks generalizing fresh ρ with
+  | nil => exact ⟨rfl, ρ, rfl⟩
+  | cons k r ih =>
+    obtain ⟨op, a, b⟩ := k
+    have h := hk (op, a, b) (by simp)
+    obtain ⟨v, hv⟩ := evalTarget_total_of_not_div op (a.eval ρ) (b.eval ρ) h.1 h.2
+    simp only [cseHoisted, execSimple, hv]
+    exact ih (fun k hk' => hk k (List.mem_cons_of_mem _ hk')) _ _
+
 end SamVerif.Opt
